@@ -7,7 +7,7 @@
 (* A trace of kind "rt" is one format -> parse -> format execution on a    *)
 (* random structure (deeper than the model-checked space):                 *)
 (*   [kind, r, t, p, warn, exc, t2, same, tc,                              *)
-(*    re, rs, ts, ps, warns, sames, fmtsame, pm, mixok]                    *)
+(*    re, rs, ts, ps, warns, sames, fmtsame, pm, mixok, ed]                *)
 (*   r     the structure given to PkgRelation.str (atoms as in PkgRelation,*)
 (*         payload strings interned to ids)                                *)
 (*   t     the produced string as token codes (independent tokenizer of    *)
@@ -45,7 +45,18 @@
 (*     property, the paragraph not modified since construction:            *)
 (*     Parse(t) = pm = r; mixok: no warning, str(pm) == the string, the    *)
 (*     other relation fields are []                                        *)
-(* <<"ACCEPTED", tid>> is printed for a trace that passes 2 .. 6.          *)
+(*   7 EDITS IN PLACE: the harness parsed the first string once more and   *)
+(*     edited THAT structure through the real list / dict methods (ed.es,  *)
+(*     edits as in PkgRelation: any container at any nesting level -- the  *)
+(*     result list, a conjunct, a dict key, an arch list, a formula, a     *)
+(*     group; append / insert / delete / item assignment / reverse), then  *)
+(*     formatted it (ed.t), parsed that (ed.p, ed.warn) and formatted      *)
+(*     again (ed.same); ed.live is the edited object itself, abstracted.   *)
+(*     The specification derives the edited structure e from the parse of  *)
+(*     step 2 with EditTrail (every edit applicable): ed.live = e, and the *)
+(*     statement for e -- a structure like any other, however the caller   *)
+(*     came by it: Parse(ed.t) = ed.p = e, no warning, same string again   *)
+(* <<"ACCEPTED", tid>> is printed for a trace that passes 2 .. 7.          *)
 (*                                                                         *)
 (* A trace of kind "probe" (DIAGNOSTIC, a rejection is reported as drift)  *)
 (* is one parse_relations call on a string that is NOT formatter output:   *)
@@ -126,7 +137,21 @@ TShare == /\ Tr.kind = "rt"
           /\ Tr.pm = Tr.r
           /\ Tr.mixok
           /\ Advance
-          /\ PrintT(<<"ACCEPTED", tid>>)
+
+TEdited == /\ Tr.kind = "rt"
+           /\ l = 7
+           /\ Len(Tr.ed.es) >= 1
+           /\ LET tr == EditTrail(Tr.p, Tr.ed.es, 1)          \* Tr.p = Parse(Toks(Tr.t)).rel (step 2) = Tr.r (step 3)
+              IN /\ Len(tr) = Len(Tr.ed.es)                   \* every edit was applicable
+                 /\ LET e == tr[Len(tr)]
+                        p == Parse(Toks(Tr.ed.t))
+                    IN /\ Tr.ed.live = e                      \* the object the caller holds has the value the model says
+                       /\ ~p.exc /\ p.warn = Tr.ed.warn /\ p.rel = Tr.ed.p
+                       /\ ~Tr.ed.warn
+                       /\ Tr.ed.p = e
+                       /\ Tr.ed.same
+           /\ Advance
+           /\ PrintT(<<"ACCEPTED", tid>>)
 
 TProbe == /\ Tr.kind = "probe"
           /\ l = 1
@@ -136,6 +161,6 @@ TProbe == /\ Tr.kind = "probe"
           /\ Advance
           /\ PrintT(<<"ACCEPTED", tid>>)
 
-TNext == TFormat \/ TParse \/ TInverse \/ TStable \/ TReparse \/ TShare \/ TProbe
+TNext == TFormat \/ TParse \/ TInverse \/ TStable \/ TReparse \/ TShare \/ TEdited \/ TProbe
 TSpec == TInit /\ [][TNext]_tvars
 =============================================================================
